@@ -281,6 +281,11 @@ func (m *Muxer) validate() error {
 		return fmt.Errorf("%w: canvas area %dx%d too large", ErrMuxValidation, canvasW, canvasH)
 	}
 	for i, f := range m.frames {
+		// An ALPH chunk only accompanies a VP8 (lossy) bitstream; VP8L carries
+		// its own alpha and ALPH+VP8L is not a valid chunk sequence.
+		if alphaData, bitstream := splitAlphaAndBitstream(f.data); alphaData != nil && detectBitstreamType(bitstream) == FourCCVP8L {
+			return fmt.Errorf("%w: frame %d has ALPH data in front of a VP8L bitstream", ErrMuxValidation, i)
+		}
 		// Offsets are stored halved in 24 bits; anything else would be
 		// written truncated.
 		if f.opts.OffsetX < 0 || f.opts.OffsetY < 0 ||
